@@ -1,4 +1,5 @@
 import DEvo.Run.Monitors
+import DEvo.Generated.Tables
 import DEvo.Generated.Skeletons
 
 /-! # C17 — lifecycle signals are paired and tell the truth about the run
@@ -126,5 +127,9 @@ theorem C17_creating_created :
        !s.closedBeforeSql && !s.openAfterSql && (o == .raised || s.sql)) = true :=
   reach_all ⟨bracketStep⟩ 8 Generated.taskCreateModels ⟨false, false, false, false, false⟩
     (fun o s => !s.closedBeforeSql && !s.openAfterSql && (o == .raised || s.sql)) (by decide)
+
+/-- **`evolved` means saved — the part the skeleton cannot see**: the list handed to `_save_project_sig` holds the
+`new_evolutions` of every task (it is created once and only ever extended).  Read from the source on every run. -/
+theorem C17_source_saved_all : DEvo.Generated.collectsAllNewEvolutions = true := by decide
 
 end DEvo.Props.C17
